@@ -282,6 +282,9 @@ pub fn explore_case(prop: &'static str, c: &Case, depth: usize) -> CaseOut {
 
 /// re-execute one recorded history without the explorer
 pub fn recheck(prop: &'static str, c: &Case) -> Vec<Violation> {
+    if c.cfg.get("edits").is_some() {
+        return crate::props::edits::recheck_as("C08", c);
+    }
     let s = subject(prop, c);
     let h = hist_of(&c.cfg);
     let mut v = vec![];
@@ -311,7 +314,7 @@ pub fn run(prop: &'static str, args: &Args) -> i32 {
         return finish(args, ev, v, &|c| recheck(prop, c));
     }
     let worker = std::env::var("WCHECK_WORKER").is_ok();
-    let fams: &[&str] = if prop == "C08" { &["fixtures", "struct", "funcs", "locals", "names", "customs", "idshift", "ctrl", "reach", "leb"] } else { &["customs", "fixtures"] };
+    let fams: &[&str] = if prop == "C08" { &["fixtures", "struct", "funcs", "locals", "names", "customs", "idshift", "ctrl", "reach", "leb", "minimal"] } else { &["customs", "fixtures"] };
     let depth = if args.tier == Tier::Quick { 4 } else { 6 };
     let ms = crate::props::families::members(fams, args, &mut ev);
     let cases: Vec<Case> = ms.iter().map(|m| Case::of(m).with(Cfg::default().json())).collect();
@@ -357,6 +360,10 @@ pub fn run(prop: &'static str, args: &Args) -> i32 {
         viol.extend(r.violations);
     }
     ev.extra.insert("states_merged_by_canonicalisation".into(), json!(merged));
+    if prop == "C08" {
+        // the same oracle on modules edited through the public API (named additions included)
+        viol.extend(crate::props::edits::run_model_as("C08", args, &mut ev));
+    }
     // determinism across processes (sampled by process count; labelled as such)
     if prop == "C08" {
         let nproc = if args.tier == Tier::Quick { 3 } else { 8 };
@@ -413,7 +420,8 @@ pub fn run(prop: &'static str, args: &Args) -> i32 {
     }
     ev.rule = format!(
         "for every member of {:?}: breadth-first exploration of all histories over {{emit, gc, reparse}} up to depth {} on the real Module \
-         (successors by replay, states de-duplicated on the bytes the next emit returns + live arena counts); the oracle runs in every state. \
+         (successors by replay, states de-duplicated on the bytes the next emit returns + live arena counts); the oracle runs in every state; \
+         for C08 additionally every history of public-API edits of C02's edit model (named additions included) on its base modules. \
          non-trivial = member whose exploration reached more than one distinct state",
         fams, depth
     );
